@@ -219,7 +219,7 @@ MANIFESTS = [
 def e2e_cases(ctx, rng, count):
     out = []
     for i in range(count):
-        stream = ["bbb", "tears", "syn1", "syn2", "syn3", "syn4", "syn5", "syn7"][i % 8]
+        stream = ["bbb", "tears", "syn1", "syn2", "syn3", "syn4", "syn5", "syn7", "syn8"][i % 9]
         man, q = MANIFESTS[(i // 5) % len(MANIFESTS)]
         opts = [q] if q else []
         start = rng.choice(["epoch", "year", "month", "today", "explicit"])
